@@ -186,7 +186,7 @@ def run(chk, tier, seed, prop=None):
         total_groups += summary["groups"]
         os.remove(ep)
     # impl -> spec: random histories with full-width values
-    msgs = {"quick": 1200, "thorough": 60000}[tier]
+    msgs = {"quick": 1200, "thorough": 20000}[tier]
     tp = os.path.join(wd, "trace.ndjson")
     harness(["status-trace", "--seed", seed, "--msgs", msgs, "--mix", prop.lower(), "--out", tp])
     rows = read_ndjson(tp)
